@@ -46,7 +46,8 @@ EXHAUSTIVE = {"quick": False, "thorough": False}
 LEANCHECK_MODULES = ["Y0.Model.Ctf", "Y0.Model.CtfSimplify", "Y0.Model.CtfFactor", "Y0.Props.C19"]
 
 OPS = ["minimize", "minimize_event", "simplify", "ancestors", "components_from_sets", "ancestral_components",
-       "is_factor_form", "factors", "factors_values", "convert", "factorize", "simplify_factorize"]
+       "is_factor_form", "factors", "factors_values", "convert", "factorize", "simplify_factorize", "factorize_classes",
+       "cond_in_ancestral_set", "ancestral_set_after", "merge_common", "merge_bidirected"]
 
 
 # ------------------------------------------------------------------------------------------ encoding helpers
@@ -227,18 +228,166 @@ def _graph(rng, nmax=6):
     return G.rand_graph(rng, n, n, acyclic=True)
 
 
+# ---- structured families (deterministic enumeration; `rng` only picks values / companions) ----------------------
+
+def _chain_graphs():
+    """chains 0->1->..->L-1 (L = 3, 4) with every set of shortcut edges and at most one bidirected edge"""
+    out = []
+    for L in (3, 4):
+        base = [[i, i + 1] for i in range(L - 1)]
+        shortcuts = [[i, j] for i in range(L) for j in range(i + 2, L)]
+        pairs = [[i, j] for i in range(L) for j in range(i + 1, L)]
+        for mask in range(1 << len(shortcuts)):
+            di = base + [e for k, e in enumerate(shortcuts) if mask >> k & 1]
+            for bi in [[]] + [[e] for e in pairs]:
+                out.append({"nodes": [], "di": di, "bi": bi})
+    return out
+
+
+def _subsets(xs, kmin=1):
+    for mask in range(1, 1 << len(xs)):
+        sub = [x for k, x in enumerate(xs) if mask >> k & 1]
+        if len(sub) >= kmin:
+            yield sub
+
+
+def structured_nested(rng, models):
+    """nested subscripts: Y_{x,z,..} on chains where one intervened variable reaches Y (or an ancestor of Y) only
+    through another; one case per (graph, variable, subscript set) and function that looks at An(.)_{G_bar X}"""
+    out = []
+    for g in _chain_graphs():
+        L = len(S.all_nodes(g))
+        for y in range(2, L):
+            for sub in _subsets(list(range(y)), 1):
+                ivs = [[a, "p" if rng.random() < 0.2 else "m"] for a in sub]
+                v = V(y, ivs)
+                seed = rng.randrange(1 << 30)
+                out.append({"op": "ancestors", "g": g, "v": v, "seed": seed, "models": 0})
+                out.append({"op": "minimize", "g": g, "v": v, "seed": seed, "models": models if len(sub) >= 2 else 0})
+                if len(sub) >= 2:
+                    other = V(rng.choice([a for a in range(L) if a != y]))
+                    roots = [v, other]
+                    cond = [other] if rng.random() < 0.5 else []
+                    out.append({"op": "ancestral_components", "g": g, "roots": roots, "cond": cond, "seed": seed, "models": 0})
+                    out.append({"op": "ancestral_set_after", "g": g, "v": v, "cond": [V(a) for a in range(y) if a not in sub][:1],
+                                "seed": seed, "models": 0})
+                    q = [[v, val(y, "p" if rng.random() < 0.3 else "m")]]
+                    out.append({"op": "factorize", "g": g, "e": q, "seed": seed, "models": models})
+                    if rng.random() < 0.5:
+                        z = rng.choice([a for a in range(L) if a != y])
+                        q2 = q + [[V(z, [iv for iv in ivs if iv[0] < z and rng.random() < 0.7]), val(z)]]
+                        out.append({"op": rng.choice(["factorize", "simplify_factorize"]), "g": g, "e": q2, "seed": seed,
+                                    "models": models})
+    return out
+
+
+def structured_starred_parent(rng, models, n_graphs):
+    """a subscript that fixes a direct parent to the STARRED value (Y @ +X with X -> Y), through every ctf-factor
+    function: conversion, ctf-factor test, grouping (with and without values), factorisation"""
+    out = []
+    for _ in range(n_graphs):
+        g = _scm_graph(rng, 5)
+        if not g["di"]:
+            continue
+        nodes = G.all_nodes(g)
+        x, y = rng.choice(g["di"])
+        pa = sorted(S.parents(g, y))
+        ivs = [[x, "p"]]
+        for p in pa:
+            if p != x and rng.random() < 0.5:
+                ivs.append([p, "p" if rng.random() < 0.5 else "m"])
+        others = [a for a in nodes if a != y and a not in pa]
+        if others and rng.random() < 0.3:
+            ivs.append([rng.choice(others), "m"])
+        v = V(y, ivs)
+        seed = rng.randrange(1 << 30)
+        item = [v, val(y, "p" if rng.random() < 0.4 else "m")]
+        ev = [item]
+        for _k in range(rng.randint(0, 2)):
+            w = rand_var(rng, g, nodes, kmax=2, star_plain=1.0, p_both=0.0)
+            ev.append([w, rand_value(rng, w, p_none=0.05)])
+        out.append({"op": "convert", "g": g, "e": ev, "seed": seed, "models": 0})
+        cv = [S_convert(g, w) for w, _ in ev]       # in ctf-factor form, +X kept
+        out.append({"op": "is_factor_form", "g": g, "vs": cv, "seed": seed, "models": 0})
+        out.append({"op": "factors", "g": g, "vs": cv, "seed": seed, "models": 0})
+        out.append({"op": "factors_values", "g": g, "e": [[S_convert(g, w), x_] for w, x_ in ev], "seed": seed, "models": 0})
+        out.append({"op": "factorize", "g": g, "e": [item], "seed": seed, "models": models})
+        out.append({"op": rng.choice(["factorize", "simplify_factorize", "factorize_classes"]), "g": g, "e": ev[:2],
+                    "seed": seed, "models": models})
+    return out
+
+
+def structured_conditioned(rng, n_graphs):
+    """conditioned variables for get_ancestral_components and its helpers: the conditioned set contains ancestors of a
+    root (whose outgoing edges are then cut), the root itself, variables with a causally irrelevant subscript (which
+    only match a member of An(W_t) after minimisation) and variables outside An(W_t)"""
+    out = []
+    graphs = _chain_graphs()
+    for k in range(n_graphs):
+        g = graphs[k % len(graphs)] if k % 3 == 0 else _graph(rng)
+        nodes = G.all_nodes(g)
+        if len(nodes) < 2 or not g["di"]:
+            continue
+        x, y = rng.choice(g["di"])
+        anc = sorted(S.anc(g, {y}))
+        non_anc = [a for a in nodes if a not in anc]
+        sub = [[a, "m"] for a in anc if a != y and rng.random() < 0.3]
+        root = V(y, sub)
+        cond = []
+        for a in anc:
+            if rng.random() < 0.5:
+                extra = [[b, "m"] for b in non_anc if rng.random() < 0.4 and b != a]   # irrelevant subscripts
+                inherited = [iv for iv in sub if iv[0] != a and rng.random() < 0.6]
+                cond.append(V(a, inherited + extra))
+        if non_anc and rng.random() < 0.3:
+            cond.append(V(rng.choice(non_anc)))
+        seed = rng.randrange(1 << 30)
+        roots = [root] + [c for c in cond if rng.random() < 0.7]
+        if rng.random() < 0.5:
+            roots.append(rand_var(rng, g, nodes, kmax=2, p_both=0.0, star_plain=1.0))
+        out.append({"op": "ancestral_components", "g": g, "roots": roots, "cond": cond, "seed": seed, "models": 0})
+        out.append({"op": "cond_in_ancestral_set", "g": g, "v": root, "cond": cond, "seed": seed, "models": 0})
+        out.append({"op": "ancestral_set_after", "g": g, "v": root, "cond": cond, "seed": seed, "models": 0})
+    return out
+
+
+def _rand_sets(rng, g, nodes, malformed=False, disjoint=False):
+    k = rng.randint(0, 4)
+    sets = []
+    for _ in range(k):
+        sets.append([rand_var(rng, g, nodes, kmax=2, p_both=0.0) for _ in range(rng.randint(0 if malformed else 1, 3))])
+    if sets and rng.random() < 0.3:
+        sets.append(list(rng.choice(sets)))
+    if disjoint:     # every graph vertex in at most one (distinct) set
+        owner, keep = {}, []
+        for s in sets:
+            s2 = [v for v in s if owner.setdefault(S.name(v), len(keep)) == len(keep)]
+            if s2:
+                keep.append(s2)
+        sets = keep
+        if sets and rng.random() < 0.2:
+            sets.append(list(rng.choice(sets)))
+    return sets
+
+
 def cases(rng: random.Random, tier: str):
     out = load_corpus()
     quick = tier != "thorough"
-    n_set = 30000 if quick else 120000     # set-valued / structural streams
-    n_sem = 28000 if quick else 100000     # streams evaluated on functional SCMs
+    n_set = 22000 if quick else 120000     # set-valued / structural streams (random)
+    n_sem = 18000 if quick else 100000     # streams evaluated on functional SCMs (random)
     models = 3 if quick else 4
-    weights = [("minimize", 3), ("minimize_event", 1), ("ancestors", 4), ("components_from_sets", 3),
-               ("ancestral_components", 4), ("is_factor_form", 2), ("factors", 2), ("factors_values", 1), ("convert", 2)]
+    # structured families first: they hit the nesting / starred-parent / conditioned-variable branches by construction
+    out += structured_nested(rng, 2)
+    out += structured_starred_parent(rng, 2, 350 if quick else 1500)
+    out += structured_conditioned(rng, 700 if quick else 3000)
+    weights = [("minimize", 3), ("minimize_event", 1), ("ancestors", 4), ("components_from_sets", 2),
+               ("ancestral_components", 4), ("is_factor_form", 2), ("factors", 2), ("factors_values", 1), ("convert", 2),
+               ("factorize_classes", 3), ("cond_in_ancestral_set", 1), ("ancestral_set_after", 2), ("merge_common", 1),
+               ("merge_bidirected", 1)]
     ops = [o for o, w in weights for _ in range(w)]
     for _ in range(n_set):
         op = rng.choice(ops)
-        malformed = rng.random() < 0.12
+        malformed = rng.random() < 0.12 and op != "factorize_classes"
         g = _graph(rng)
         nodes = G.all_nodes(g)
         c = {"op": op, "g": g, "seed": rng.randrange(1 << 30), "models": 0, "malformed": malformed}
@@ -250,20 +399,21 @@ def cases(rng: random.Random, tier: str):
             c["e"] = rand_event(rng, g, nodes, malformed=malformed)
             if op == "factors_values" and rng.random() < 0.7:
                 c["e"] = [[S_convert(g, v), x] if S.name(v) in nodes else [v, x] for v, x in c["e"]]
-        elif op == "components_from_sets":
-            k = rng.randint(0, 4)
-            sets = []
-            for _ in range(k):
-                sets.append([rand_var(rng, g, nodes, kmax=2, p_both=0.0) for _ in range(rng.randint(0 if malformed else 1, 3))])
-            if sets and rng.random() < 0.3:
-                sets.append(list(rng.choice(sets)))
-            c["sets"] = sets
-        elif op == "ancestral_components":
+        elif op == "factorize_classes":
+            c["e"] = rand_event(rng, g, nodes, nmax=3, p_none=0.1, kmax=2)
+        elif op in ("components_from_sets", "merge_common"):
+            c["sets"] = _rand_sets(rng, g, nodes, malformed)
+        elif op == "merge_bidirected":
+            c["sets"] = _rand_sets(rng, g, nodes, False, disjoint=rng.random() < 0.9)
+        elif op in ("ancestral_components", "cond_in_ancestral_set", "ancestral_set_after"):
             roots = [rand_var(rng, g, nodes, kmax=2, p_outside=pout, p_both=0.0, star_plain=1.0) for _ in range(rng.randint(1, 3))]
             cond = [r for r in roots if rng.random() < 0.4]
-            if rng.random() < 0.2:
+            if rng.random() < 0.35:
                 cond.append(rand_var(rng, g, nodes, kmax=2, p_both=0.0, star_plain=1.0))
-            c["roots"], c["cond"] = roots, cond
+            if op == "ancestral_components":
+                c["roots"], c["cond"] = roots, cond
+            else:
+                c["v"], c["cond"] = roots[0], cond[::-1] + [V(a) for a in nodes if rng.random() < 0.25]
         elif op in ("is_factor_form", "factors"):
             vs = [rand_var(rng, g, nodes, kmax=3, p_outside=pout, p_both=0.02) for _ in range(rng.randint(0, 4))]
             r = rng.random()
@@ -418,6 +568,33 @@ def _call(case):
         elif op == "factorize":
             expr, ev = api.do_counterfactual_factor_factorization(variables=_dec_event(case["e"]), graph=graph)
             out = ["ok", _enc_factorisation(expr, ev)]
+        elif op == "cond_in_ancestral_set":
+            r = au._get_conditioned_variables_in_ancestral_set(
+                conditioned_variables={dec_var(v) for v in case["cond"]},
+                ancestral_set_root_variable=dec_var(case["v"]), graph=graph)
+            out = ["ok", C.as_set([str(G.name_to_int(v.name)) for v in r])]
+            if not all(type(v) is Variable and v.star is None for v in r):
+                wf = "_get_conditioned_variables_in_ancestral_set returned something that is not a graph vertex"
+        elif op == "ancestral_set_after":
+            r = au._get_ancestral_set_after_intervening_on_conditioned_variables(
+                conditioned_variables={dec_var(v) for v in case["cond"]},
+                ancestral_set_root_variable=dec_var(case["v"]), graph=graph)
+            out = ["ok", C.as_set([_enc_var(v) for v in r])]
+        elif op == "merge_common":
+            sets = {frozenset(dec_var(v) for v in s) for s in case["sets"]}
+            r = au._merge_frozen_sets_with_common_vertices(sets)
+            out = ["ok", C.as_set([C.as_set([_enc_var(v) for v in s]) for s in r])]
+        elif op == "merge_bidirected":
+            sets = {frozenset(dec_var(v) for v in s) for s in case["sets"]}
+            r = au._merge_frozen_sets_linked_by_bidirectional_edges(input_sets=sets, graph=graph)
+            out = ["ok", C.as_set([C.as_set([_enc_var(v) for v in s]) for s in r])]
+            if not _disjoint_bases(case["sets"]) or any(not s for s in case["sets"]):
+                out = ["ok", "unspecified"]   # only reached with non-empty sets that are disjoint on graph vertices
+        elif op == "factorize_classes":
+            # no y0 code involved: the Python key functions of the known findings vs the Lean predicates of the theorem
+            cs = _factorise_causes(case["g"], case["e"])
+            out = ["ok", [("true" if c in cs else "false") for c in ("multi-world", "literal-bound", "outcome-parent-value")]
+                   + ["true" if _readable_query(case["e"]) else "false"]]
         elif op == "simplify_factorize":
             r = api.simplify(event=_dec_event(case["e"]), graph=graph)
             if r is None:
@@ -448,6 +625,17 @@ def _t(x):
 
 def _sets(xss):
     return C.as_set([C.as_set([_t(v) for v in s]) for s in xss])
+
+
+def _disjoint_bases(sets):
+    """distinct input sets share no graph vertex (the invariant under which the second merge pass is reached)"""
+    seen = {}
+    for s in sets:
+        key = frozenset(S.vkey(v) for v in s)
+        for n in {S.name(v) for v in s}:
+            if seen.setdefault(n, key) != key:
+                return False
+    return True
 
 
 def _var_ok(g, v, allow_star=True):
@@ -506,27 +694,40 @@ def _check_factor_value(case, g, q, fact, label):
 
 
 def _factorise_causes(g, q):
-    """syntactic reasons why y0's two-symbol representation cannot express the factorisation of this query (used only
-    to group known findings; the verdict itself always comes from exact evaluation)"""
+    """the three syntactic query classes on which y0's two-symbol representation cannot express the factorisation
+    (Lean: Y0.Ctf.multiWorld / literalBound / outcomeParentValue, cross-checked by the op `factorize_classes`; theorem
+    factorisation_den_partial: outside these classes the value IS P(query)).  Used to group known findings; the verdict
+    itself always comes from exact evaluation."""
     causes = set()
     D = {}
     for v, _ in q:
         for a in S.ctf_ancestors(g, v):
-            D.setdefault(S.name(a), set()).add(S.vkey(a))
+            D.setdefault(S.name(a), {})[S.vkey(a)] = a
     if any(len(s) > 1 for s in D.values()):
         causes.add("multi-world")        # one vertex occurs as two different counterfactual variables in An(Y_*)
     outcome = {}
     for v, x in q:
-        outcome.setdefault(S.name(v), set()).add("n" if x == "n" else x[1])
+        outcome.setdefault(S.name(v), set()).add("n" if x == "n" else ("m" if x == [S.name(v), "m"] else "p"))
     lit = {a for v, _ in q for a, _ in S.ivs(v)}
     bases = set(D)
     for w in bases:
-        for p in S.parents(g, w) & bases:
-            if p in outcome and outcome[p] != {"m"}:
-                causes.add("outcome-parent-value")   # the added subscript -P is literal but P's event value is +P / None
+        for a in D[w].values():
+            own = {x for x, _ in S.ivs(a)}
+            for p in (S.parents(g, w) & bases) - own:
+                if p in outcome and outcome[p] != {"m"}:
+                    causes.add("outcome-parent-value")   # the ADDED subscript -P is literal but P's event value is +P / None
     if lit & (bases - set(outcome)):
         causes.add("literal-bound")       # a literal subscript of the query is captured by the summation index
     return sorted(causes)
+
+
+def _readable_query(q):
+    """Lean: Y0.Ctf.readableQuery — no variable intervenes on itself or twice on one name"""
+    for v, _ in q:
+        names = [a for a, _ in S.ivs(v)]
+        if S.name(v) in names or len(names) != len(set(names)):
+            return False
+    return True
 
 
 def _oracle(case, out, exc, wf):
@@ -610,6 +811,31 @@ def _oracle(case, out, exc, wf):
             return f"get_ancestral_components raised {exc} on counterfactual variables over V(G)"
         exp = _sets(S.ancestral_components(g, case["cond"], case["roots"]))
         return None if out[1] == exp else f"ancestral components {out[1]} differ from Def. 4.2: {exp}"
+    if op in ("cond_in_ancestral_set", "ancestral_set_after"):
+        vs = case["cond"] + [case["v"]]
+        if not all(_var_ok(g, v, allow_star=False) for v in vs):
+            return None
+        fn = "_get_conditioned_variables_in_ancestral_set" if op == "cond_in_ancestral_set" else \
+            "_get_ancestral_set_after_intervening_on_conditioned_variables"
+        if out[0] == "err":
+            return f"{fn} raised {exc} on counterfactual variables over V(G)"
+        if op == "cond_in_ancestral_set":
+            exp = C.as_set([str(n) for n in S.cond_in_ancestral_set(g, case["cond"], case["v"])])
+            return None if out[1] == exp else f"{fn}: {out[1]} differs from V(||X*|| ∩ An(W_t)) = {exp}"
+        exp = C.as_set([_t(a) for a in S.ancestral_set_after(g, case["cond"], case["v"])])
+        return None if out[1] == exp else f"{fn}: {out[1]} differs from An(W_t) in G with the edges out of X*(W_t) removed: {exp}"
+    if op in ("merge_common", "merge_bidirected"):
+        if not all(S.in_graph(g, v) for s in case["sets"] for v in s):
+            return None
+        if out[0] == "err":
+            return f"_merge_frozen_sets ({op}) raised {exc}"
+        if op == "merge_common":
+            exp = _sets(S.merge_common(case["sets"]))
+            return None if out[1] == exp else f"first merge pass {out[1]} differs from the finest partition closed under overlap: {exp}"
+        if not _disjoint_bases(case["sets"]) or any(not s for s in case["sets"]):
+            return None   # the second pass is only specified for non-empty sets that are disjoint on graph vertices
+        exp = _sets(S.merge_bidirected(g, case["sets"]))
+        return None if out[1] == exp else f"second merge pass {out[1]} differs from the finest partition closed under bidirected adjacency: {exp}"
     if op in ("is_factor_form", "factors", "factors_values"):
         vs = case["vs"] if "vs" in case else [v for v, _ in case["e"]]
         if not all(S.in_graph(g, v) for v in vs):
@@ -710,10 +936,12 @@ def request(case):
     g = _g(case)
     if op in ("minimize", "ancestors"):
         return C.enc(["ctf", op, g, case["v"]])
-    if op in ("minimize_event", "simplify", "factors_values", "convert", "factorize", "simplify_factorize"):
+    if op in ("minimize_event", "simplify", "factors_values", "convert", "factorize", "simplify_factorize", "factorize_classes"):
         return C.enc(["ctf", op, g, case["e"]])
-    if op == "components_from_sets":
+    if op in ("components_from_sets", "merge_common", "merge_bidirected"):
         return C.enc(["ctf", op, g, case["sets"]])
+    if op in ("cond_in_ancestral_set", "ancestral_set_after"):
+        return C.enc(["ctf", op, g, case["cond"], case["v"]])
     if op == "ancestral_components":
         return C.enc(["ctf", op, g, case["cond"], case["roots"]])
     if op in ("is_factor_form", "factors"):
@@ -745,14 +973,22 @@ def canon_model(case, rep):
         return ["ok", _bag([list(it) for it in body])]
     if op == "simplify":
         return ["ok", "none"] if body == "none" else ["ok", ["some", C.as_set([list(it) for it in body[1]])]]
-    if op == "ancestors":
+    if op in ("ancestors", "ancestral_set_after"):
         return ["ok", C.as_set(list(body))]
+    if op == "cond_in_ancestral_set":
+        return ["ok", C.as_set([str(x) for x in body])]
+    if op == "merge_bidirected" and (not _disjoint_bases(case["sets"]) or any(not s for s in case["sets"])):
+        return ["ok", "unspecified"]
+    if op in ("merge_common", "merge_bidirected"):
+        return ["ok", C.as_set([C.as_set(list(s)) for s in body])]
     if op in ("components_from_sets", "ancestral_components", "factors"):
         return ["ok", C.as_set([C.as_set(list(s)) for s in body])]
     if op == "factors_values":
         return ["ok", C.as_set([C.as_set([list(it) for it in s]) for s in body])]
     if op == "is_factor_form":
         return ["ok", "false-or-err" if body == "false" and _outside(case) else body]
+    if op == "factorize_classes":
+        return ["ok", list(body)]
     if op == "factorize":
         return ["ok", _m_fact(body)]
     if op == "simplify_factorize":
